@@ -2950,6 +2950,7 @@ def _apply_sifting(
     # using `set` injects some randomness
     levels = bdd._levels()
     names = set(bdd.vars)
+    m = n
     for var in names:
         k = _reorder_var(bdd, var, levels)
         m = len(bdd)
@@ -2979,6 +2980,9 @@ def _reorder_var(
     n = len(bdd.vars) - 1
     if n < 0:
         raise AssertionError(n)
+    if n == 0:
+        # a single variable: no other level to sift to
+        return bdd.level_of_var(var)
     start = 0
     end = n
     level = bdd.level_of_var(var)
